@@ -272,11 +272,10 @@ TEXT ·Ger(SB), NOSPLIT, $0
 	NEGQ    TMP1
 	CMPQ    INC_X, $0
 	CMOVQLT TMP1, TMP2
-	LEAQ    (X_PTR)(TMP2*SIZE), X_PTR
+	LEAQ    (X_PTR)(TMP2*1), X_PTR // TMP2 is a byte offset: INC_X is already scaled
 
 	CMPQ incY+80(FP), $1 // Check for dense vector Y (fast-path)
-	JG   inc
-	JL   end
+	JNE  inc
 
 	SHRQ $2, M
 	JZ   r2
@@ -441,7 +440,7 @@ inc:  // Algorithm for incY != 1 ( split loads in kernel )
 	NEGQ    TMP1
 	CMPQ    INC_Y, $0
 	CMOVQLT TMP1, TMP2
-	LEAQ    (Y_PTR)(TMP2*SIZE), Y_PTR
+	LEAQ    (Y_PTR)(TMP2*1), Y_PTR // TMP2 is a byte offset: INC_Y is already scaled
 
 	SHRQ $2, M
 	JZ   inc_r2
